@@ -246,6 +246,27 @@ func Universe(si *world.SchemaInfo, profile string) []Slot {
 		inv(2)
 		add(P(E("cons"), E("lmax")), "x", "x,y", "x,y,z")
 		inv(1)
+	case "lazy":
+		// leafref targets the kv leaves point to (selected by /cc/kn, which only running holds)
+		add(P(E("k1", "name", "a"), E("val")), "v1", "v2")
+		add(P(E("k1", "name", "c"), E("val")), "v1", "v2")
+		// the cc container: validators of a/v, b/v, e[*]/v all read /cc/lim and /cc/base, the leafrefs read /k1[*]/name,
+		// the h leaves read /sys/hostname - none of which the intents of this profile define (they come from running / defaults)
+		for _, c := range []string{"a", "b"} {
+			add(P(E("cc"), E(c), E("v")), "20", "30", "70", "5")
+			add(P(E("cc"), E(c), E("r")), "a", "c", "zz")
+			add(P(E("cc"), E(c), E("h")), "x", "y")
+			add(P(E("cc"), E(c), E("lr")), "50", "51")
+			add(P(E("cc"), E(c), E("lb")), "10", "11")
+			add(P(E("cc"), E(c), E("kv")), "v1", "v2")
+		}
+		for _, k := range []string{"e1", "e2", "e3"} {
+			add(P(E("cc"), E("e", "name", k), E("v")), "20", "40", "70")
+			add(P(E("cc"), E("e", "name", k), E("r")), "a", "c", "zz")
+			add(P(E("cc"), E("e", "name", k), E("peer")), "e1", "e2", "e9")
+			add(P(E("cc"), E("e", "name", k), E("lr")), "50", "51")
+			add(P(E("cc"), E("e", "name", k), E("kv")), "v1", "v2")
+		}
 	default:
 		panic("unknown profile " + profile)
 	}
